@@ -1036,6 +1036,42 @@ func vfC25Run(t *testing.T, cs vfC25Case, out *vfC25Out, isKnown func(string) bo
 			epochChangeTo = append(epochChangeTo, be.epoch)
 		}
 		emptyEpochUsed := false
+		// Server-side observation of epoch flips: after every quiescence remember the channel state's epoch and who is in the
+		// keyed hub. A connection that was in the hub right before a flip must lose its subscription (the flip collects the
+		// hub); connections outside the hub at that moment are the known-finding class.
+		type flipRec struct {
+			seq     int64
+			members map[string]bool
+			from    string
+			to      string
+		}
+		var flips []flipRec
+		prevEpoch, prevSeq := "", int64(0)
+		prevMembers := map[string]bool{}
+		snap := func() {
+			m := w.node.sharedPollManager
+			m.mu.RLock()
+			s := m.channels[vfC25Chan]
+			m.mu.RUnlock()
+			cur := prevEpoch
+			if s != nil {
+				s.mu.Lock()
+				cur = s.epoch
+				s.mu.Unlock()
+			} else if cs.Versioned {
+				cur = ""
+			}
+			if cs.Versioned && cur != prevEpoch && s != nil && cur != "" {
+				flips = append(flips, flipRec{seq: prevSeq, members: prevMembers, from: prevEpoch, to: cur})
+			}
+			prevEpoch, prevSeq = cur, w.seq.Load()
+			prevMembers = map[string]bool{}
+			if hub := w.node.keyedManager.getHub(vfC25Chan); hub != nil {
+				for _, c := range hub.collectAllClients() {
+					prevMembers[c.uid] = true
+				}
+			}
+		}
 		releaseHeld := func(i int) {
 			w.broker.mu.Lock()
 			if n := len(w.broker.held); n > 0 {
@@ -1363,6 +1399,7 @@ func vfC25Run(t *testing.T, cs vfC25Case, out *vfC25Out, isKnown func(string) bo
 			}
 			vfSettle()
 			markInline()
+			snap()
 		}
 
 		// ---- final phase: release everything (one kind at a time), heal the backend, let ≥3 refresh intervals pass -----
@@ -1371,14 +1408,17 @@ func vfC25Run(t *testing.T, cs vfC25Case, out *vfC25Out, isKnown func(string) bo
 		w.Gates.Disarm("poll")
 		vfSettle()
 		markInline()
+		snap()
 		for w.Gates.Release("brokersub") {
 		}
 		vfSettle()
 		markInline()
+		snap()
 		for w.broker.NumHeld() > 0 {
 			releaseHeld(0)
+			vfSettle()
+			snap()
 		}
-		vfSettle()
 		w.Gates.ReleaseAll()
 		be.mu.Lock()
 		be.fail = 0
@@ -1386,13 +1426,16 @@ func vfC25Run(t *testing.T, cs vfC25Case, out *vfC25Out, isKnown func(string) bo
 		be.mu.Unlock()
 		vfSettle()
 		markInline()
+		snap()
 		for i := 0; i < 4; i++ {
 			time.Sleep(interval)
 			vfSettle()
+			snap()
 		}
 		time.Sleep(time.Second)
 		vfSettle()
 		markInline()
+		snap()
 
 		// ---- oracle ------------------------------------------------------------------------------------------------
 		be.mu.Lock()
@@ -1462,6 +1505,22 @@ func vfC25Run(t *testing.T, cs vfC25Case, out *vfC25Out, isKnown func(string) bo
 			// certainly knows the final publisher epoch (polls answered with it were applied in the final phase). A live
 			// subscription is stale when the publisher epoch changed after it started, or when its reply carried another
 			// (non-empty) epoch than the final one.
+			if !closed {
+				for _, fl := range flips {
+					if !fl.members[cr.c.Client.uid] {
+						continue
+					}
+					for _, sub := range st.subs {
+						if sub.startSeq < fl.seq && sub.endSeq == 0 {
+							return fmt.Sprintf("conn %s: the channel epoch flipped %q→%q while the connection was in the keyed hub (tracking a key), but its subscription (reply epoch %q) was never ended; frames: %s",
+								cr.c.Name, fl.from, fl.to, sub.epoch, vfC25RenderFrames(frames))
+						}
+					}
+				}
+			}
+			if len(flips) > 0 {
+				out.label("server_epoch_flip_observed")
+			}
 			survivor := false
 			if learned && !closed && cs.EpochMode == 1 {
 				for _, sub := range st.subs {
